@@ -104,6 +104,9 @@ def cp_case(draw, **over: Any) -> Dict[str, Any]:
     if not w.valid or not w.analysed or not w.has_positive_weight():
         ann, inst = "", None
         w = Window(events, ann, inst)
+    from hv.hta_io import prelude_strategy
+
+    case["prelude"] = draw(prelude_strategy())
     case["params"] = {"rank": rank, "annotation": ann, "instance": inst,
                       "zero_weight_launch_edges": draw(st.sampled_from([False, True]))}
     return case
@@ -132,7 +135,7 @@ class CPRun:
         self.case = case
         self.dir = directory
         self.files = write_case(case, directory)
-        self.ta = load_analysis(self.files, directory, mp=case.get("mp", False))
+        self.ta = load_analysis(self.files, directory, mp=case.get("mp", False), prelude=case.get("prelude"))
         self.rank = p["rank"]
         self.events = next(r["events"] for r in case["ranks"] if r["rank"] == self.rank)
         inst = p["instance"]
